@@ -56,9 +56,30 @@ def lex_in(src, lang):
         if len(_lexcache) > 200:
             _lexcache.clear()
         lx = cfamily.lex(src, oracles.INDEP_LANGS[lang])
-        v = (cfamily.norm_tokens(lx, split_shift=lang in ("CPP", "OC+", "JAVA", "CS", "VALA")), lx.ok)
+        v = (cfamily.norm_tokens(lx, split_shift=lang in SPLIT_SHIFT_LANGS), lx.ok)
         _lexcache[k] = v
     return v
+
+
+SPLIT_SHIFT_LANGS = ("CPP", "OC", "OC+", "JAVA", "CS", "VALA")    # '>>' may close two template / generic argument lists
+
+
+def self_norm(toks, lang):
+    """uncrustify's own token dump, normalised the way the independent lexer's stream is: '>>' / '>>>' that may close generic
+    argument lists split, the '[]' chunk split, and line terminators inside literals that span lines spelt as one newline"""
+    out = []
+    for kind, txt in toks:
+        if isinstance(txt, bytes):
+            if b"\xe2\x90\x8d" in txt:
+                txt = txt.replace(b"\xe2\x90\x8d\xe2\x90\xa4", b"\xe2\x90\xa4").replace(b"\xe2\x90\x8d", b"\xe2\x90\xa4")
+            if txt in (b">>", b">>>") and lang in SPLIT_SHIFT_LANGS:
+                out.extend([(kind, b">")] * len(txt))
+                continue
+            if txt == b"[]":
+                out.extend([(kind, b"["), (kind, b"]")])
+                continue
+        out.append((kind, txt))
+    return out
 
 
 def token_witness(a, b, which):
@@ -78,27 +99,31 @@ def judge(case, r):
     out = []
     use_self = case["meta"].get("self", False) or lang not in oracles.INDEP_LANGS
     indep_ok = False
-    if lang in oracles.INDEP_LANGS and not case["meta"].get("self_only"):
+    wide = b"\x00" in case["src"] or case["src"][:2] in (b"\xff\xfe", b"\xfe\xff")     # UTF-16 / NUL bytes: C09's subject, not lexable bytewise
+    if lang in oracles.INDEP_LANGS and not case["meta"].get("self_only") and not wide:
         a, ok = lex_in(case["src"], lang)
         if ok:
             indep_ok = True
             lx = cfamily.lex(r.out, oracles.INDEP_LANGS[lang])
-            b = cfamily.norm_tokens(lx, split_shift=lang in ("CPP", "OC+", "JAVA", "CS", "VALA"))
+            b = cfamily.norm_tokens(lx, split_shift=lang in SPLIT_SHIFT_LANGS)
             w = token_witness(a, b, "independent-lexer")
             if w:
                 w[0]["lang"] = lang
                 w[0]["ctx"] = case["meta"].get("ctx", "")
                 out.append(w[0])
     if (use_self or not indep_ok) and not out:
-        a = oracles.self_tokens(r.hook.get("tokens"))
+        a = self_norm(oracles.self_tokens(r.hook.get("tokens")), lang)
         r2 = run.unc(r.out, None, lang, hooks=("tokens",))
-        b = oracles.self_tokens(r2.hook.get("tokens"))
+        b = self_norm(oracles.self_tokens(r2.hook.get("tokens")), lang)
         if a and (b or not r.out.strip()):
             w = token_witness(a, b, "uncrustify-tokeniser")
             if w:
                 w[0]["lang"] = lang
                 w[0]["ctx"] = case["meta"].get("ctx", "")
                 out.append(w[0])
+    if case["meta"].get("ctx") == "corpus":
+        for w in out:
+            w["file"] = case["prog"][7:] if case["prog"].startswith("corpus:") else case["prog"]
     return out
 
 
@@ -216,7 +241,8 @@ def check(ctx):
             G(pr, "C", "defaults", {}, sp_family, sp_family, 2, max_second=None)
         # corpus: every input file of the repository's test-suite in its language, self-tokeniser oracle
         for (name, lang, src) in corpus.files():
-            pr = ("corpus:" + name, src, {"ctx": "corpus", "self": True})
+            # embedded SQL ('$DECLARE', EXEC SQL blocks) is not C text: uncrustify's own tokeniser only
+            pr = ("corpus:" + name, src, {"ctx": "corpus", "self": True, "self_only": name.startswith("sql/")})
             G(pr, lang, "defaults", {})
             for bn, b in sp_bases.items():
                 G(pr, lang, bn, b)
